@@ -389,12 +389,13 @@ def build_harness(features=None, hooks=False):
 # ------------------------------------------------------------------ running engines
 
 
-ENGINE_TIMEOUT = int(os.environ.get('VERIF_ENGINE_TIMEOUT', '900'))     # seconds per engine process: an engine that runs longer is treated as dead
+ENGINE_TIMEOUT = int(os.environ.get('VERIF_ENGINE_TIMEOUT', '900'))
+ENGINE_STALL = int(os.environ.get('VERIF_ENGINE_STALL', '45'))        # seconds without a new output line     # seconds per engine process: an engine that runs longer is treated as dead
 
 
 def _limit_engine():
     import resource
-    lim = 24 * 1024 ** 3        # address space: an engine asked for an absurd amount of work dies instead of taking the machine down
+    lim = 12 * 1024 ** 3        # address space: an engine asked for an absurd amount of work dies instead of taking the machine down
     resource.setrlimit(resource.RLIMIT_AS, (lim, lim))
 
 
@@ -410,12 +411,23 @@ def run_engine(cmd, lines, nproc=1):
         tf_err = tempfile.TemporaryFile()
         pr = subprocess.Popen(cmd, stdin=tf_in, stdout=tf_out, stderr=tf_err, preexec_fn=_limit_engine)
         timed_out = False
-        try:
-            pr.wait(timeout=ENGINE_TIMEOUT)
-        except subprocess.TimeoutExpired:
-            pr.kill()
-            pr.wait()
-            timed_out = True
+        t_start = time.time()
+        last_size, last_change = -1, time.time()
+        while True:
+            try:
+                pr.wait(timeout=1.0)
+                break
+            except subprocess.TimeoutExpired:
+                size = os.fstat(tf_out.fileno()).st_size
+                now = time.time()
+                if size != last_size:
+                    last_size, last_change = size, now
+                # no output line for ENGINE_STALL seconds (one operation never takes that long), or the overall limit: the engine hangs
+                if now - last_change > ENGINE_STALL or now - t_start > ENGINE_TIMEOUT:
+                    pr.kill()
+                    pr.wait()
+                    timed_out = True
+                    break
         tf_out.seek(0)
         tf_err.seek(0)
 
@@ -426,9 +438,11 @@ def run_engine(cmd, lines, nproc=1):
         outs = p.stdout.decode('utf-8', 'replace').split('\n')
         if outs and outs[-1] == '':
             outs.pop()
+        elif outs:
+            outs.pop()       # the engine stopped in the middle of a line
         if len(outs) != len(lines):
             # the engine died (abort / stack overflow): find the line
-            raise EngineDied(cmd, lines, len(outs), p.stderr.decode('utf-8', 'replace')[-2000:])
+            raise EngineDied(cmd, lines, len(outs), p.stderr.decode('utf-8', 'replace')[-2000:], outs)
         return outs
     # parallel chunks
     chunk = (len(lines) + nproc - 1) // nproc
@@ -454,14 +468,15 @@ def run_engine(cmd, lines, nproc=1):
         if outs and outs[-1] == '':
             outs.pop()
         if len(outs) != len(part):
-            raise EngineDied(cmd, part, len(outs), '')
+            raise EngineDied(cmd, part, len(outs), '', outs)
         res.extend(outs)
     return res
 
 
 class EngineDied(Exception):
-    def __init__(self, cmd, lines, n_out, stderr):
+    def __init__(self, cmd, lines, n_out, stderr, outs=None):
         self.cmd, self.lines, self.n_out, self.stderr = cmd, lines, n_out, stderr
+        self.outs = outs or []
         super().__init__(f'engine {cmd} died after {n_out} of {len(lines)} lines: {stderr[-300:]}')
 
 
@@ -528,22 +543,26 @@ def _judge_idx(k):
 
 
 def bisect_dead(cmd, lines):
-    """run line by line in small batches so that a dying engine only loses the offending line"""
+    """an engine died or hung: keep what it printed, blame the line it was working on (`DIED`), go on after it (at most MAX_DEAD times, then the rest
+    is marked DIED-SKIPPED so that a systematic hang cannot take hours)"""
     res = []
     i = 0
-    batch = 256
+    dead = 0
+    MAX_DEAD = 12
     while i < len(lines):
-        part = lines[i:i + batch]
+        if dead >= MAX_DEAD:
+            res.extend(['DIED-SKIPPED'] * (len(lines) - i))
+            break
+        part = lines[i:i + 4096]
         try:
             res.extend(run_engine(cmd, part, 1))
             i += len(part)
-            batch = min(256, batch * 2)
-        except EngineDied:
-            if len(part) == 1:
-                res.append('DIED')
-                i += 1
-            else:
-                batch = max(1, len(part) // 2)
+        except EngineDied as ex:
+            good = ex.outs[:ex.n_out]
+            res.extend(good)
+            res.append('DIED')
+            dead += 1
+            i += len(good) + 1
     return res
 
 
@@ -595,7 +614,7 @@ def maker(registry):
 
 def engine_error(*outs):
     for o in outs:
-        if o.startswith('PANIC') or o in ('UNKNOWN-OP', 'BAD-ARGS', 'BAD-ARGS trailing', 'DIED', 'EMPTY'):
+        if o.startswith('PANIC') or o in ('UNKNOWN-OP', 'BAD-ARGS', 'BAD-ARGS trailing', 'DIED', 'DIED-SKIPPED', 'EMPTY'):
             return True
     return False
 
